@@ -17,6 +17,9 @@ DimsTwo    == {<<640, 480>>, <<65535, 1>>}
 CtorsAll   == {"buf", "memseek", "file", "filewith"}
 DeltasPts  == {1, 89, 90, 3000, 3003, 90000, 262144}
 DeltasPtsT == {89, 90, 3000, 262144}
+\* frame sizes relative to the reader's chunk limit: one short of it, exactly, one past it, and well beyond
+BigDeltasAll == {-1, 0, 1, 4096}
+NoDeltas   == {}
 \* simulation (vector generation)
 MtusSim    == {12, 13, 20, 64, 200, 1188, 1200}
 DeltasSim  == {1, 90, 1500, 3000, 3003, 6000}
